@@ -266,7 +266,7 @@ fn sstreams(n: usize) -> Vec<SStream> {
 pub fn is_stream_family(fam: &str) -> bool {
     matches!(
         fam,
-        "merge" | "zip" | "chain" | "future_group" | "stream_group" | "wait_until_stream" | "nest_merge_groups" | "nest_chain_merge"
+        "merge" | "zip" | "chain" | "future_group" | "stream_group" | "wait_until_stream" | "nest_merge_groups" | "nest_chain_merge" | "nest_merge_merge"
     )
 }
 
